@@ -1909,6 +1909,7 @@ def source_token_rules(ctx, prefix):
     # wave 10 (b) a synthesised token is placed at a token of the source: no token is built at the default position (0:0 is the
     #     position of the sheet's first character)
     dflt = []
+    cursor = []
     n_wraps = 0
     for g in sc.fns:
         if not g.body or g.base == "StepToken":
@@ -1918,8 +1919,34 @@ def source_token_rules(ctx, prefix):
                 n_wraps += 1
                 if re.search(r"default\(\)", sir.expr_str(x["args"][1])):
                     dflt.append("%s builds a token at `%s`" % (g.name, sir.expr_str(x["args"][1])[:30]))
+                # ... nor at the reader's current position: after a look-ahead that is the *next* token, not the one that caused
+                # the synthesised token (every existing site takes `.position` of a token it holds)
+                a1_ = sir.strip_ref(x["args"][1])
+                # (a position sampled into a local *before* the statement is read - the start of an `@import` - is a source token's)
+                if a1_.get("k") == "mcall" and a1_["m"] == "position" and not a1_["args"]:
+                    cursor.append("%s builds a token at the reader's position `%s`" % (g.name, sir.expr_str(a1_)[:30]))
     obs.append(ob("%s.src/no-default-position" % prefix, False if dflt else True if n_wraps >= 10 else None, "lib.rs", "; ".join(sorted(set(dflt))[:2]) if dflt else "%d synthesised tokens, none at the default position" % n_wraps,
                   witness=None if not dflt else "the braces of a replayed `@media` wrapper are mapped to 0:0, the `@` of the first rule"))
+    obs.append(ob("%s.src/token-position" % prefix, False if cursor else True if n_wraps >= 10 else None, "lib.rs", "; ".join(sorted(set(cursor))[:2]) if cursor else "%d synthesised tokens, each placed at a token it was built for" % n_wraps,
+                  witness=None if not cursor else "`@import 'a' supports(display:grid);`: the synthesised `(` is mapped to `display`, not to `supports(`"))
+    # wave 11: what is written out is the mapped string and nothing else: a prologue written by `write` shifts every column of the map
+    wr_bad, n_wr = [], 0
+    for g in sc.fns:
+        if g.base != "StyleSheetOutput" or not g.body or g.name not in ("write", "write_str"):
+            continue
+        n_wr += 1
+        outs_ = []
+        for x in sir.walk(g.body, into_closures=True):
+            wf_ = sir.write_fmt_call(x)
+            if wf_:
+                outs_.append("".join(p_[1] if p_[0] == "lit" else "{%s}" % sir.expr_str(sir.strip_ref(p_[1])) for p_ in wf_[1]).replace(" ", ""))
+            elif x.get("k") == "mcall" and x["m"] in ("write_all", "write") and x["args"]:
+                outs_.append("{%s}" % sir.expr_str(sir.strip_ref(x["args"][0])).replace(" ", "").replace(".as_bytes()", ""))
+        if outs_ != ["{self.s}"]:
+            wr_bad.append("%s writes %s" % (g.name, outs_))
+    obs.append(ob("%s.map/output-is-mapped-text" % prefix, False if wr_bad else True if n_wr == 2 else None, "glass-easel-stylesheet-compiler/src/output.rs",
+                  "; ".join(wr_bad) if wr_bad else "write and write_str put out the mapped string and nothing else",
+                  witness=None if not wr_bad else "a sheet with a non-ASCII character: every token sits 17 columns to the right of its map entry"))
     # wave 9 (a) of the tokens written for a class name only the rewritten identifier carries the original spelling as its name
     wf = [f for f in sc.fns if f.name == "write_maybe_class_name" and f.body]
     if len(wf) == 1:
